@@ -1,5 +1,5 @@
 (* Proofs for Properties/C15.v. *)
-From Coq Require Import NArith ZArith List Bool Lia Arith Ring.
+From Coq Require Import NArith ZArith List Bool Lia Arith Ring Sorted Permutation.
 From NGS Require Import Val Ints SlSlices.
 From NGSGen Require Import Tables.
 Import ListNotations.
@@ -650,3 +650,102 @@ Definition rai_example : job :=
   mkjob [82; 65; 73]%N 1 1 1 1 1 1 1 [{| d_files := 1; d_h := 1; d_w := 1; d_ch := None |}].
 Lemma rai_example_ok : map ck_coords (fst (run rai_example)) = [(0, 1, 0, 1, 0, 1)] /\ snd (run rai_example) = Ok tt.
 Proof. split; vm_compute; reflexivity. Qed.
+
+(* ================= order of the slices of a directory ================= *)
+
+Definition lex_le (a b : list N) : Prop := lex_leb a b = true.
+
+Lemma lex_le_refl : forall a, lex_le a a.
+Proof.
+  unfold lex_le. induction a as [|x a IH]; [reflexivity|]. cbn [lex_leb].
+  rewrite N.ltb_irrefl. exact IH.
+Qed.
+
+Lemma lex_le_total : forall a b, lex_le a b \/ lex_le b a.
+Proof.
+  unfold lex_le. induction a as [|x a IH]; intros [|y b]; cbn [lex_leb]; auto.
+  destruct (N.ltb_spec x y), (N.ltb_spec y x); auto; try lia; apply IH.
+Qed.
+
+Lemma lex_le_antisym : forall a b, lex_le a b -> lex_le b a -> a = b.
+Proof.
+  unfold lex_le. induction a as [|x a IH]; intros [|y b] H1 H2; try reflexivity; try discriminate.
+  cbn [lex_leb] in H1, H2.
+  destruct (N.ltb_spec x y), (N.ltb_spec y x); try discriminate; try lia.
+  assert (x = y) by lia. subst y. f_equal. apply IH; assumption.
+Qed.
+
+Lemma lex_le_trans : forall a b c, lex_le a b -> lex_le b c -> lex_le a c.
+Proof.
+  unfold lex_le. induction a as [|x a IH]; intros [|y b] [|z c] H1 H2; try reflexivity; try discriminate.
+  cbn [lex_leb] in *.
+  destruct (N.ltb_spec x y), (N.ltb_spec y x), (N.ltb_spec y z), (N.ltb_spec z y),
+           (N.ltb_spec x z), (N.ltb_spec z x); try discriminate; try reflexivity; try lia.
+  eapply IH; eassumption.
+Qed.
+
+Lemma lex_insert_perm : forall x l, Permutation (x :: l) (lex_insert x l).
+Proof.
+  intros x l. induction l as [|y r IH]; [reflexivity|]. cbn [lex_insert].
+  destruct (lex_leb x y); [reflexivity|].
+  eapply perm_trans; [apply perm_swap|]. apply perm_skip. exact IH.
+Qed.
+
+Lemma lex_sort_perm : forall l, Permutation l (lex_sort l).
+Proof.
+  induction l as [|x l IH]; [reflexivity|]. cbn [lex_sort fold_right].
+  eapply perm_trans; [apply perm_skip; exact IH|]. apply lex_insert_perm.
+Qed.
+
+Lemma lex_insert_hdrel : forall a x l, lex_le a x -> HdRel lex_le a l -> HdRel lex_le a (lex_insert x l).
+Proof.
+  intros a x l Hax H. destruct l as [|y r]; cbn [lex_insert]; [constructor; exact Hax|].
+  destruct (lex_leb x y); constructor; [exact Hax|]. inversion H; assumption.
+Qed.
+
+Lemma lex_insert_sorted : forall x l, Sorted lex_le l -> Sorted lex_le (lex_insert x l).
+Proof.
+  intros x l H. induction H as [|y r Hr IH Hhd]; cbn [lex_insert]; [repeat constructor|].
+  destruct (lex_leb x y) eqn:E.
+  - constructor; [constructor; assumption|]. constructor. exact E.
+  - constructor; [exact IH|]. apply lex_insert_hdrel; [|exact Hhd].
+    destruct (lex_le_total x y) as [H|H]; [unfold lex_le in H; congruence | exact H].
+Qed.
+
+Lemma lex_sort_sorted : forall l, Sorted lex_le (lex_sort l).
+Proof.
+  induction l as [|x l IH]; [constructor|]. cbn [lex_sort fold_right]. apply lex_insert_sorted. exact IH.
+Qed.
+
+(* a sorted list is determined by its elements *)
+Lemma sorted_perm_unique : forall l1 l2, Sorted lex_le l1 -> Sorted lex_le l2 -> Permutation l1 l2 -> l1 = l2.
+Proof.
+  assert (Tr : Relations_1.Transitive lex_le) by (intros a b c; apply lex_le_trans).
+  intros l1 l2 H1 H2. apply (Sorted_StronglySorted Tr) in H1. apply (Sorted_StronglySorted Tr) in H2.
+  revert l2 H2. induction H1 as [|a l1 Hs1 IH Ha]; intros l2 H2 Hp.
+  - apply Permutation_nil in Hp. subst. reflexivity.
+  - destruct H2 as [|b l2 Hs2 Hb]; [apply Permutation_sym, Permutation_nil in Hp; discriminate|].
+    assert (Hab : lex_le a b).
+    { assert (Hin : In b (a :: l1)) by (eapply Permutation_in; [apply Permutation_sym; exact Hp | left; reflexivity]).
+      destruct Hin as [<-|Hin]; [apply lex_le_refl|]. rewrite Forall_forall in Ha. apply Ha. exact Hin. }
+    assert (Hba : lex_le b a).
+    { assert (Hin : In a (b :: l2)) by (eapply Permutation_in; [exact Hp | left; reflexivity]).
+      destruct Hin as [<-|Hin]; [apply lex_le_refl|]. rewrite Forall_forall in Hb. apply Hb. exact Hin. }
+    pose proof (lex_le_antisym a b Hab Hba) as E. subst b. f_equal.
+    apply IH; [exact Hs2|]. eapply Permutation_cons_inv. exact Hp.
+Qed.
+
+Lemma slice_order_spec : forall names,
+  Permutation names (slice_order names) /\ Sorted lex_le (slice_order names) /\
+  forall l, Permutation names l -> Sorted lex_le l -> l = slice_order names.
+Proof.
+  intro names. unfold slice_order. split; [apply lex_sort_perm|]. split; [apply lex_sort_sorted|].
+  intros l Hp Hs. apply sorted_perm_unique; [exact Hs | apply lex_sort_sorted|].
+  eapply perm_trans; [apply Permutation_sym; exact Hp | apply lex_sort_perm].
+Qed.
+
+(* numeric and lexicographic order differ: s1 s2 s9 s10 are read as s1 s10 s2 s9 *)
+Lemma slice_order_example :
+  slice_order [[115; 49]; [115; 50]; [115; 57]; [115; 49; 48]]%N
+  = [[115; 49]; [115; 49; 48]; [115; 50]; [115; 57]]%N.
+Proof. reflexivity. Qed.
